@@ -43,6 +43,10 @@ def build_base(kind):
         # a base forecaster configured away from the defaults: a candidate may set a parameter
         # back to None
         return NaiveForecaster(strategy="mean", window_length=6)
+    if kind == "theta":
+        from sktime.forecasting.theta import ThetaForecaster
+
+        return ThetaForecaster(deseasonalize=False)
     if kind == "trend":
         return PolynomialTrendForecaster()
     if kind == "pipeline":
@@ -64,6 +68,7 @@ PREFIT_GRIDS = {
     "naive": {"strategy": ["mean", "drift"], "window_length": [3, 5]},
     "trend": {"degree": [2, 3], "with_intercept": [False]},
     "naive_mean6": {"strategy": ["drift"], "window_length": [3, 4]},
+    "theta": {"initial_level": [0.15, 0.45]},
     "pipeline": {"deseasonalizer__sp": [2], "forecaster__strategy": ["mean", "drift"], "forecaster__window_length": [3, 4]},
     "multiplex": {"selected_forecaster": ["trend", "naive"], "trend__degree": [2, 3], "naive__strategy": ["drift"], "naive__window_length": [4]},
     "reduce": {"window_length": [4, 6]},
@@ -202,6 +207,19 @@ def oracle(case, ctx):
 
         a, b = sut(tuner.predict, fh, xf(direct.cutoff)), sut(direct.predict, fh, xf(direct.cutoff))
         discs += _same_pred(a, b, "predict")
+        if case["base"] == "theta" and not discs:
+            # prediction intervals at the requested coverage are those of the best forecaster
+            for alpha in (0.05, 0.2, 0.5):
+                ia = sut(lambda: tuner.predict(fh, return_pred_int=True, alpha=alpha))
+                ib = sut(lambda: direct.predict(fh, return_pred_int=True, alpha=alpha))
+                if isinstance(ib, Raised):
+                    break
+                ctx.label("prediction_intervals")
+                if isinstance(ia, Raised) or not (isinstance(ia, tuple) and len(ia) == 2 and np.allclose(
+                        np.asarray(ia[1], dtype=float), np.asarray(ib[1], dtype=float), rtol=1e-10, atol=1e-12)):
+                    discs.append(D("tuner_differs_from_direct:prediction_interval", "alpha=%s: tuner %s direct %s" % (
+                        alpha, ia if isinstance(ia, Raised) else np.asarray(ia[1], dtype=float).tolist(), np.asarray(ib[1], dtype=float).tolist())))
+                    break
         c = sut(lambda: tuner.cutoff)
         if isinstance(c, Raised) or int(c) != int(direct.cutoff):
             discs.append(D("tuner_cutoff", "%r vs %r" % (c, direct.cutoff)))
@@ -261,6 +279,8 @@ def grids(draw, base, search):
                     {"strategy": draw(_subset(["mean", "drift"])), "window_length": draw(_subset([3, 4, 6]))}]
         return [{"strategy": ["mean"], "sp": draw(_subset([2, 3])), "window_length": [6]},
                 {"strategy": ["last", "mean"]}]
+    if base == "theta":
+        return {"initial_level": draw(_subset([0.1, 0.3, 0.6, 0.9], 2))}
     if base == "naive_mean6":
         return {"window_length": [None] + draw(_subset([2, 3, 4], 1)), **({"strategy": draw(_subset(["mean", "drift"], 1))} if draw(st.booleans()) else {})}
     if base == "trend":
@@ -281,7 +301,7 @@ def grids(draw, base, search):
 
 @st.composite
 def cases(draw):
-    base = draw(st.sampled_from(["naive", "naive", "naive_mean6", "trend", "pipeline", "multiplex", "reduce"]))
+    base = draw(st.sampled_from(["naive", "naive", "naive_mean6", "trend", "pipeline", "multiplex", "reduce", "theta"]))
     search = draw(st.sampled_from(["grid", "grid", "random"]))
     grid = draw(grids(base, search))
     fh = draw(gen.fh_steps(max_step=3, max_size=2))
